@@ -29,6 +29,7 @@ type scriptGetter struct {
 	headFn   func(trusted *vhdr.Header) (*vhdr.Header, error) // Head() behaviour
 	rangeFn  func(from *vhdr.Header, to uint64) ([]*vhdr.Header, error)
 	headGate chan struct{} // when set, Head blocks until it is closed
+	hDelay   time.Duration // when > 0: every GetByHeight takes that long (a slow tail fetch)
 	budget   int           // when > 0: GetByHeight fails with errBudget after that many requests (non-termination guard)
 	nH       int
 }
@@ -83,6 +84,9 @@ func (g *scriptGetter) GetByHeight(ctx context.Context, h uint64) (*vhdr.Header,
 	g.add(fmt.Sprintf("H:%d", h))
 	if err := ctx.Err(); err != nil {
 		return nil, err
+	}
+	if g.hDelay > 0 {
+		time.Sleep(g.hDelay)
 	}
 	g.mu.Lock()
 	g.nH++
